@@ -1,3 +1,5 @@
 import Bch.Props.C07a
 import Bch.Props.C07b
-/-! Property C07: Base58 / Base58Check theorems live in `C07a`, bech32 / ConvertBits theorems in `C07b`. -/
+import Bch.Props.C07c
+/-! Property C07: Base58 / Base58Check theorems live in `C07a`, bech32 / ConvertBits theorems in `C07b`,
+the purity (slice/heap frame) theorems `C07_pure_*` in `C07c`. -/
